@@ -218,14 +218,28 @@ class Conv2dModuleHelper(ModuleHelper):
         Returns:
             tensor of shape (batch_size, out_h, out_w, in_c*kh*kw)
         """
-        padding = cast(List[int], self.module.padding)
         kernel_size = cast(List[int], self.module.kernel_size)
         stride = cast(List[int], self.module.stride)
-        if padding[0] + padding[1] > 0:
-            x = torch.nn.functional.pad(
-                x,
-                (padding[1], padding[1], padding[0], padding[0]),
-            ).data
+        if isinstance(self.module.padding, str):
+            # torch's string paddings: 'valid' pads nothing, 'same' pads
+            # dilation * (kernel_size - 1) zeros per dimension with the
+            # smaller half first
+            if self.module.padding == 'valid':
+                pads = (0, 0, 0, 0)
+            else:
+                dilation = cast(List[int], self.module.dilation)
+                total = [d * (k - 1) for k, d in zip(kernel_size, dilation)]
+                pads = (
+                    total[1] // 2,
+                    total[1] - total[1] // 2,
+                    total[0] // 2,
+                    total[0] - total[0] // 2,
+                )
+        else:
+            padding = cast(List[int], self.module.padding)
+            pads = (padding[1], padding[1], padding[0], padding[0])
+        if sum(pads) > 0:
+            x = torch.nn.functional.pad(x, pads).data
         x = x.unfold(2, kernel_size[0], stride[0])
         x = x.unfold(3, kernel_size[1], stride[1])
         x = x.transpose_(1, 2).transpose_(2, 3).contiguous()
